@@ -31,17 +31,41 @@ def locate_arm(fn, variant):
     if value_local is None:
         raise Unsupported("cannot locate the aggregate `value` local")
     stops = set()
+    # the arm ends where the aggregate's `value` has been assigned (by a statement or as the destination of a call)
+    reach = _reachable(fn, entry, stop_pred=lambda bb: False, limit=400)
     for bb, stmts in fn.blocks.items():
-        if any(re.match(r"^%s = Value::(Int|Float)\(" % re.escape(value_local), s) for s in stmts):
-            m = re.match(r"^goto -> (bb\d+);$", stmts[-1])
-            if m:
-                stops.add(m.group(1))
-            m = re.match(r"^drop\(.*\) -> \[return: (bb\d+),", stmts[-1])
-            if m:
-                stops.add(m.group(1))
+        if bb not in reach:
+            continue
+        for s in stmts:
+            if re.match(r"^%s = " % re.escape(value_local), s):
+                m = re.search(r"-> \[return: (bb\d+),", s)
+                if m:
+                    stops.add(m.group(1))
+                else:
+                    t = stmts[-1]
+                    m = re.match(r"^goto -> (bb\d+);$", t) or re.match(r"^drop\(.*\) -> \[return: (bb\d+),", t)
+                    if m:
+                        stops.add(m.group(1))
     if not stops:
         raise Unsupported("cannot locate the arm exit")
     return entry, value_local, stops
+
+
+def _reachable(fn, entry, stop_pred, limit=400):
+    """Blocks reachable from `entry` without passing through another arm's entry (bounded breadth-first walk of the CFG text)."""
+    seen, todo = set(), [entry]
+    while todo and len(seen) < limit:
+        bb = todo.pop()
+        if bb in seen or bb in fn.cleanup:
+            continue
+        seen.add(bb)
+        term = fn.blocks[bb][-1] if fn.blocks[bb] else ""
+        if re.search(r"switchInt\(.*\) -> \[.*otherwise", term) and len(re.findall(r"bb\d+", term)) > 6:
+            continue            # a wide dispatch (the match over aggregate functions): do not walk into other arms
+        for t in re.findall(r"(?:return: |success: |-> |: )(bb\d+)", term):
+            if t not in seen:
+                todo.append(t)
+    return seen
 
 
 def _debug_all(fn, name):
@@ -86,12 +110,13 @@ def run_sum(variant, nrows):
         def m_value_eq(ex, st, a, dst, callee):
             return None
 
-        models = GENERIC_MODELS + [
+        from ..symex import STD_CMP_MODELS
+        models = [
             (r"as IntoIterator>::into_iter$", m_into_iter),
             (r"slice::Iter<'_, Row> as Iterator>::next$", m_next),
             (r"^evaluate_expression_value::<", m_eval),
-        ]
-        ex = Exec(fn, models, bound=nrows + 2, variant_index=vi, stop_at={b: "arm-exit" for b in stops}, max_paths=5000)
+        ] + STD_CMP_MODELS + GENERIC_MODELS
+        ex = Exec(fn, models, bound=nrows + 2, variant_index=vi, stop_at={b: "arm-exit" for b in stops}, max_paths=20000, mf=mf, inline=r".")
         st = State()
         st.env["$func"] = Enum(variant, [Opaque("expr")])
         # the arm reads the aggregate function through a reference local; find it from the entry block
@@ -191,5 +216,6 @@ def _int_inputs(p):
 
 TARGETS = [
     {"name": "c21_o1_q_sum_arm_2_rows", "crate": "nervusdb-query", "run": run_sum("Sum", 2)},
-    {"name": "c21_o1_t_sum_arm_3_rows", "crate": "nervusdb-query", "run": run_sum("Sum", 3)},
+    {"name": "c21_o1_q_sum_arm_4_rows", "crate": "nervusdb-query", "run": run_sum("Sum", 4)},
+    {"name": "c21_o1_t_sum_arm_5_rows", "crate": "nervusdb-query", "run": run_sum("Sum", 5)},
 ]
